@@ -219,7 +219,7 @@ class H:
                 st = Term.lift(scale)
                 d = xt.e - yt.e
                 relaxed = None if exact_only else z3.And(d <= rv(tol) * st.e, -d <= rv(tol) * st.e)
-                core.ctx().oblig.append((lab, xt.e == yt.e, 'eq', relaxed))
+                core.ctx().oblig.append((lab, xt.e == yt.e, 'eq', relaxed, (xt.e, yt.e, None if exact_only else rv(tol) * st.e)))
             else:
                 xv = x.val if isinstance(x, Term) else float(x)
                 yv = y.val if isinstance(y, Term) else float(y)
@@ -253,7 +253,7 @@ class H:
             elif x.e.eq(y.e):
                 core.ctx().require(lab, z3.BoolVal(True), 'same-structural')
             else:
-                core.ctx().oblig.append((lab, x.e == y.e, 'same', None))
+                core.ctx().oblig.append((lab, x.e == y.e, 'same', None, (x.e, y.e, None)))
 
     def raises(self, label, fn, excs=Exception):
         """fn() must raise (one of excs) on this path"""
@@ -278,6 +278,15 @@ class H:
     def is_type(self, label, obj, typ):
         ok = type(obj) is typ if isinstance(typ, type) else isinstance(obj, typ)
         self.true(label, ok, 'type')
+
+    def unit(self, vec):
+        """constrain a symbolic vector to unit length: assumption + rewrite rule last^2 -> 1 - rest"""
+        if self.mode != 'sym':
+            return
+        c = core.ctx()
+        es = [Term.lift(x).e for x in vec]
+        c.assumptions.append(z3.Sum([e * e for e in es]) == 1)
+        c.rules.append((es[-1], 1 - z3.Sum([e * e for e in es[:-1]])))
 
     def sqrt_hint(self, g):
         """propose |g| as the value of any later sqrt whose radicand the solver proves equal to g*g"""
